@@ -200,5 +200,25 @@ class Hist:
             return 'action-during-exec'
         return 'plain'
 
+    def hook_stall(self, pid):
+        """True when the final dump shows a running parent all of whose children are terminal and whose LAST child
+        to finish was a lifecycle-hook act: a finished hook act never reviews its parent, so the parent is stranded
+        when a hook act happens to run after the regular children"""
+        final = self.final_tasks()
+        term_seq = {}
+        for e in self.states:
+            if e['new'] in TERM:
+                term_seq[(e['pid'], e['tid'])] = e['seq']
+        for k, t in final.items():
+            if k[0] != pid or t['state'] != 'running':
+                continue
+            kids = [c for c in final if c[0] == pid and self.parent(c) == k]
+            if not kids or any(final[c]['state'] not in TERM for c in kids):
+                continue
+            last = max(kids, key=lambda c: term_seq.get(c, -1))
+            if (final[last].get('data') or {}).get('$is_event_processed'):
+                return True
+        return False
+
     def interleaving_signature(self):
         return digest([(e['t'], e.get('nid') or e.get('what') or e.get('action'), e.get('new') or e.get('state')) for e in self.R if e['t'] in ('state', 'emit', 'action')])
